@@ -67,7 +67,7 @@ def make_harness(cfg, tw):
     def harness():
         eng = core.engine()
         W = models.sym_matrix(eng, N, symmetric=True, diag="zero" if zero_diag else "free",
-                              distinct=distinct)
+                              distinct=distinct, positive=cfg.get("positive", False))
         labels = models.sym_labels(eng, n, K, two_classes=False)
         assume_partition(eng, labels, part)
         cls = semi_mod.SemiSupervisedOPF if semi else sup.SupervisedOPF
